@@ -792,7 +792,12 @@ def judge(s: Sys, choices, t: Tally, verbose=False):
 
     # -- the limit -----------------------------------------------------------------------------------------
     if up == "h2":
-        t.judge("open_server_streams_le_limit", not s.limit_viol, feats, case, "open streams at the server peer <= MAX_CONCURRENT_STREAMS known to mitmproxy whenever a stream is opened", s.limit_viol[:3])
+        # two independent counts: the monitor above (limit delivered to mitmproxy vs. streams open at the peer when a
+        # head arrives) and hyper-h2's own enforcement of the acknowledged limit (it refuses the stream)
+        refused = [u.peer.conn_error for u in s.ups if isinstance(u, Up2) and u.peer.conn_error and "TooManyStreams" in u.peer.conn_error]
+        t.judge("open_server_streams_le_limit", not s.limit_viol and not refused, feats, case,
+                "open streams at the server peer <= MAX_CONCURRENT_STREAMS known to mitmproxy whenever a stream is opened",
+                {"monitor": s.limit_viol[:3], "peer_refused": refused[:1]})
 
     # -- arrival order ---------------------------------------------------------------------------------------
     if up == "h2":
@@ -856,81 +861,112 @@ def judge(s: Sys, choices, t: Tally, verbose=False):
 
 # ---------------------------------------------------------------------------------------------- configurations
 def specs(tier):
-    """[(cfg, deviation bound)]"""
+    """[(cfg, deviation bound)]; bound 99 = every schedule of the configuration"""
     out = []
     thorough = tier == "thorough"
+
+    def b(q, t):
+        return t if thorough else q
 
     def add(bound, **cfg):
         out.append((cfg, bound))
 
     FULL = 99
     # 1. two streams, explored completely: the base exchange under each single option
-    two = [(["p1", "p1"], ["d1", "d1"]), (["g", "p2"], ["d1", "h"]), (["pt", "p1"], ["dt", "d1"])]
+    two = [(["p1", "p1"], ["d1", "d1"]), (["g", "p2"], ["d1", "h"]), (["pt", "p1"], ["dt", "d1"]), (["pe", "ge"], ["d2", "dt"])]
     for cs, ss in two:
         for limit in (None, 1, 2):
-            add(FULL if thorough else 3, cs=cs, ss=ss, limit=limit)
+            add(FULL, cs=cs, ss=ss, limit=limit)
     for stream in ("req", "resp", "both"):
         for limit in (None, 1):
-            add(FULL if thorough else 2, cs=["p2", "p1"], ss=["d2", "d1"], limit=limit, stream=stream)
+            add(b(3, FULL), cs=["p2", "p1"], ss=["d2", "d1"], limit=limit, stream=stream)
     # 2. resets (client and server side), with and without the limit
     for cs, ss in [(["r1", "p1"], ["d1", "d1"]), (["rA", "p1"], ["d1", "d1"]), (["p1", "r0"], ["d1", "d1"]),
                    (["p1", "p1"], ["x0", "d1"]), (["p1", "p1"], ["x2", "d1"]), (["p1", "g"], ["d1", "x1"]), (["rA", "p1"], ["x1", "d1"])]:
         for limit in (None, 1):
-            for stream in (("none", "both") if thorough else ("none",)):
-                add(FULL if thorough and stream == "none" else 2, cs=cs, ss=ss, limit=limit, stream=stream)
+            add(FULL, cs=cs, ss=ss, limit=limit)
+            add(b(2, FULL), cs=cs, ss=ss, limit=limit, stream="both")
         if thorough:
-            add(3, cs=cs, ss=ss, limit=1, stream="req")
+            add(FULL, cs=cs, ss=ss, limit=1, stream="req")
     # 3. lowering the limit mid-run, late settings, manual connect
     for limit, lower in ((None, 1), (2, 1)):
-        add(3 if thorough else 2, cs=["p1", "p1", "g"], ss=["d1", "d1", "h"], limit=limit, lower=lower)
-        add(3 if thorough else 2, cs=["p1", "p1"], ss=["d1", "d1"], limit=limit, lower=lower, stream="req")
-    add(3 if thorough else 2, cs=["p1", "p1", "g"], ss=["d1", "h", "d1"], limit=1, sset="late")
-    add(3 if thorough else 2, cs=["p1", "p1"], ss=["d1", "d1"], limit=1, sset="late", stream="req")
-    add(3 if thorough else 2, cs=["p1", "g", "p1"], ss=["d1", "d1", "h"], limit=2, connect="manual")
-    add(2, cs=["p1", "g"], ss=["d1", "d1"], limit=1, connect="manual", sset="late", stream="req")
+        add(b(3, FULL),cs=["p1", "p1", "g"], ss=["d1", "d1", "h"], limit=limit, lower=lower)
+        add(b(2, FULL), cs=["p1", "p1"], ss=["d1", "d1"], limit=limit, lower=lower, stream="req")
+        if thorough:
+            add(3, cs=["p1", "g", "p1"], ss=["d1", "d1", "d1"], limit=limit, lower=lower, stream="both")
+    add(b(3, FULL),cs=["p1", "p1", "g"], ss=["d1", "h", "d1"], limit=1, sset="late")
+    add(b(2, FULL), cs=["p1", "p1"], ss=["d1", "d1"], limit=1, sset="late", stream="req")
+    add(b(3, FULL),cs=["p1", "g", "p1"], ss=["d1", "d1", "h"], limit=2, connect="manual")
+    add(b(2, FULL), cs=["p1", "g"], ss=["d1", "d1"], limit=1, connect="manual", sset="late", stream="req")
     # 4. withheld window updates
     for stream in ("none", "both"):
         for limit in (None, 1):
-            add(3 if thorough else 2, cs=["p2", "p1"], ss=["d2", "d1"], win=4, limit=limit, stream=stream)
-    add(2, cs=["pt", "p1"], ss=["dt", "d1"], win=4, stream="both")
-    add(2, cs=["pt", "p1"], ss=["dt", "d1"], win=4)
-    add(2, cs=["r1", "p1"], ss=["d1", "x2"], win=4, stream="both")
+            add(b(2, 4),cs=["p2", "p1"], ss=["d2", "d1"], win=4, limit=limit, stream=stream)
+    add(b(2, 4),cs=["pt", "p1"], ss=["dt", "d1"], win=4, stream="both")
+    add(b(2, 4),cs=["pt", "p1"], ss=["dt", "d1"], win=4)
+    add(b(2, 4),cs=["r1", "p1"], ss=["d1", "x2"], win=4, stream="both")
+    if thorough:
+        add(2, cs=["p1", "p1", "p1"], ss=["d1", "d1", "d1"], win=4, limit=1, stream="both")
     # 5. three streams
     three = [(["p1", "p1", "p1"], ["d1", "d1", "d1"]), (["g", "p2", "pt"], ["dt", "h", "d2"]), (["p1", "r1", "p1"], ["d1", "d1", "x1"]),
              (["rA", "p1", "g"], ["d1", "x0", "d1"])]
     for cs, ss in three:
         for limit in (None, 1, 2):
-            add(2 if thorough else 1, cs=cs, ss=ss, limit=limit)
+            add(b(2, FULL), cs=cs, ss=ss, limit=limit)
             if thorough or limit == 1:
-                add(2 if thorough else 1, cs=cs, ss=ss, limit=limit, stream="both")
+                add(b(2, FULL),cs=cs, ss=ss, limit=limit, stream="both")
     if thorough:
-        add(3, cs=["p1", "p1", "p1"], ss=["d1", "d1", "d1"], limit=1)
-        add(3, cs=["p1", "p1", "p1"], ss=["d1", "d1", "d1"], limit=2)
-        add(3, cs=["g", "g", "g"], ss=["h", "h", "h"], limit=1, stream="req")
+        add(FULL, cs=["p2", "p2", "p2"], ss=["d2", "d2", "d2"], limit=1)
+        add(4, cs=["p2", "p2", "p2"], ss=["d2", "d2", "d2"], limit=2, stream="both")
+        add(FULL, cs=["g", "g", "g"], ss=["h", "h", "h"], limit=1, stream="req")
+        add(FULL, cs=["g", "g", "g"], ss=["h", "h", "h"], limit=2)
     # 6. segmentation
     for seg in ("mid", "bytes", "coalesce"):
         for cs, ss, limit, stream in [(["p1", "p1"], ["d1", "d1"], 1, "none"), (["pt", "g", "p1"], ["dt", "d1", "h"], 2, "none"),
                                       (["p2", "r1"], ["x2", "d1"], None, "both")]:
-            add((3 if seg == "coalesce" else 2) if thorough else 1, cs=cs, ss=ss, limit=limit, stream=stream, seg=seg)
-    add(3 if thorough else 2, cs=["g", "g", "g"], ss=["h", "h", "h"], limit=2, seg="coalesce")
-    add(3 if thorough else 2, cs=["p1", "p1", "p1"], ss=["d1", "d1", "d1"], limit=1, seg="coalesce", stream="req")
+            add(b(2, FULL),cs=cs, ss=ss, limit=limit, stream=stream, seg=seg)
+    add(b(3, FULL),cs=["g", "g", "g"], ss=["h", "h", "h"], limit=2, seg="coalesce")
+    add(b(3, FULL),cs=["p1", "p1", "p1"], ss=["d1", "d1", "d1"], limit=1, seg="coalesce", stream="req")
     # 7. HTTP/1 upstream: one connection per stream
     h1s = [(["p1", "p1"], ["d1", "d1"]), (["g", "p2"], ["ch", "eof"]), (["p1", "g"], ["x0", "d2"]), (["r1", "p1"], ["d1", "d1"]),
            (["rA", "g"], ["d2", "x1"])]
     for cs, ss in h1s:
         for stream in ("none", "both"):
-            add(FULL if thorough else 2, up="h1", cs=cs, ss=ss, stream=stream)
-    add(2 if thorough else 1, up="h1", cs=["p1", "g", "p2"], ss=["d2", "ch", "eof"])
-    add(2 if thorough else 1, up="h1", cs=["p1", "g", "p2"], ss=["d2", "ch", "eof"], connect="manual")
-    add(2, up="h1", cs=["p1", "p1"], ss=["d1", "eof"], connect="manual", stream="both")
-    add(2 if thorough else 1, up="h1", cs=["p1", "g", "p1"], ss=["eof", "d1", "x0"], seg="coalesce")
+            add(b(3, FULL), up="h1", cs=cs, ss=ss, stream=stream)
+    add(b(2, FULL),up="h1", cs=["p1", "g", "p2"], ss=["d2", "ch", "eof"])
+    add(b(2, FULL),up="h1", cs=["p1", "g", "p2"], ss=["d2", "ch", "eof"], connect="manual")
+    add(b(2, FULL), up="h1", cs=["p1", "p1"], ss=["d1", "eof"], connect="manual", stream="both")
+    add(b(2, FULL),up="h1", cs=["p1", "g", "p1"], ss=["eof", "d1", "x0"], seg="coalesce")
     return out
 
 
+SUBTREE_CAP = 60000  # safety only: executions per first-level subtree (never reached with the shipped bounds)
+
+
+class _Capped(Exception):
+    pass
+
+
+class CappedExec(Exec):
+    def __init__(self, cfg):
+        super().__init__(cfg)
+        self.count = 0
+
+    def run(self, prefix, t, verbose=False):
+        self.count += 1
+        if self.count > SUBTREE_CAP:
+            raise _Capped()
+        return super().run(prefix, t, verbose)
+
+
 def chunk_fn(chunk):
+    gc.freeze()
     t = Tally()
     for cfg, prefix, used, bound in chunk:
-        _dev_rec(Exec(cfg), tuple(prefix), used, bound, t)
+        try:
+            _dev_rec(CappedExec(cfg), tuple(prefix), used, bound, t)
+        except _Capped:
+            t.add("subtrees_capped")
     return t
 
 
@@ -973,6 +1009,8 @@ def run(ctx):
     ctx.tally.merge(t0)
     ctx.log("%d configurations, %d first-level subtrees" % (len(sp), len(tasks)))
     par.pmap_tally(chunk_fn, tasks, ctx.tally, nchunks=min(len(tasks), 512))
+    if ctx.tally.extra.get("subtrees_capped"):
+        ctx.cap("%d first-level subtrees stopped at %d executions" % (ctx.tally.extra["subtrees_capped"], SUBTREE_CAP))
 
 
 def replay(case, t, verbose=False):
